@@ -5,6 +5,7 @@ import SignaloModel.Model.IntVal
 import SignaloModel.Model.Registry
 import SignaloModel.Model.PipeRegistry
 import SignaloModel.Proofs.SourcesTree
+import SignaloModel.Proofs.SourcesRaw
 /-! Driver: instance records of sources, sinks and pipes. Models whose state type lives in `Type 1`
 (arbitrary machines) are not stored: the descriptor and the operation log are, and the model is re-run
 from its initial state on every operation. -/
@@ -19,8 +20,8 @@ structure SrcInst where
   log : List String := []
   /-- what the implementation answered to the most recent `pull` (`none` = not pulled yet) -/
   lastImpl : Option String := none
-  /-- a scripted source that is NOT fused (answers may be end markers followed by further items) instead of `e` -/
-  burst : Option (List (Option V)) := none
+  /-- an adapter tree with scripted NON-fused leaves (raw answers: end markers may be followed by items), instead of `e` -/
+  raw : Option (Sources.RExpr V) := none
 
 structure SkInst where
   k : SinkModels.Sk V
@@ -38,6 +39,8 @@ structure FInst (F : Type) where
   outs : List (List F) := []
   /-- for a synthesis filter fed by an analysis filter: the id of that analysis instance -/
   partner : Option Nat := none
+  /-- a remark the driver attaches at construction (e.g. `unit-gain`: a normalised integer kernel whose division is exact) -/
+  note : String := ""
   /-- what the implementation printed for its configuration the last time it was asked (kept across a reset) -/
   lastCfg : Option String := none
 
